@@ -71,3 +71,57 @@ func VX_C14_Races(args []int) {
 	vxRaceDetect(false)
 	vxCover("c14.races")
 }
+
+func init() { vxRegister("VX_C14_DisconnectWhileLaunching", VX_C14_DisconnectWhileLaunching) }
+
+// VX_C14_DisconnectWhileLaunching: one goroutine is in the middle of launching
+// a call (inside a pre-write hook) while the peer goes away and the session's
+// reader handles the disconnect. No unsynchronised conflicting accesses; the
+// call completes exactly once; the disconnect handling finishes.
+// args: kind(0 AsyncCall with a roomy channel, 1 channel of capacity 1)
+func VX_C14_DisconnectWhileLaunching(args []int) {
+	var log []string
+	pl := newVxPlugin("h", &log)
+	rel := make(chan struct{})
+	entered := make(chan struct{}, 1)
+	pl.onHook = func(stage string) {
+		if stage == "PreWriteCall" {
+			entered <- struct{}{}
+			<-rel
+		}
+	}
+	p := vxNewPeer(pl)
+	conn := newVxConn("cli:1", "srv:2")
+	s, st := p.ServeConn(conn)
+	vxAssume(st.OK())
+	vxWaitIdle()
+	vxRaceDetect(true)
+	capn := 4
+	if args[0] == 1 {
+		capn = 1
+	}
+	ch := make(chan CallCmd, capn)
+	fin := make(chan CallCmd, 1)
+	go func() {
+		fin <- s.AsyncCall("/a", []byte("1"), new([]byte), ch)
+	}()
+	<-entered // the launcher is inside the hook
+	conn.end() // the peer goes away
+	vxWaitIdle() // the reader handles the disconnect as far as it can
+	close(rel)
+	vxWaitIdle()
+	vxRaceDetect(false)
+	vxAssert(len(fin) == 1, "[C02] launch returns")
+	if len(fin) == 1 {
+		cmd := <-fin
+		vxAssert(vxDone(cmd), "[C02] call launched during the disconnect completes")
+		vxAssert(len(ch) == 1, "[C02] and is delivered exactly once")
+	}
+	vxAssert(vxBlockedThreads() == 0, "disconnect handling finishes (nobody left blocked)")
+	select {
+	case <-s.CloseNotify():
+	default:
+		vxFail("[C13] close notification fires after the disconnect")
+	}
+	vxCover("c14.launching")
+}
